@@ -19,7 +19,7 @@ Arithmetic ==
    /\ (Z!BLe(Bi(a), Bi(b)) <=> a <= b) /\ (Z!BLt(Bi(a), Bi(b)) <=> a < b) /\ (Z!BEq(Bi(a), Bi(b)) <=> a = b)
    /\ Z!ToInt(Z!BMin(Bi(a), Bi(b))) = Min(a, b)
 Rules ==
-   /\ (Z!Need(Bi(a)) <=> NeedZ64(a))
+   /\ (Z!Need(Bi(a)) <=> NeedZ64(a)) /\ (Z!NeedC(Bi(a)) <=> NeedZ64C(a))
    /\ Z!ToInt(Z!Clamp(Bi(a))) = Clamp32(a)
    /\ Z!CentralFields(Bi(a), Bi(b), Bi(c)) = [i \in 1..Len(CentralZ64Fields(a, b, c)) |-> Bi(CentralZ64Fields(a, b, c)[i])]
    /\ (Z!NeedEnd(a, Bi(b), Bi(c)) <=> NeedZ64End(a, b, c))
